@@ -50,6 +50,7 @@ func (d *Digest) Hex() string { return sim.Hex(d.h) }
 
 // Call runs f, turning a panic into a violation attributed to site.
 func Call(site string, f func()) (v *sim.Violation) {
+	sim.SetSite(site)
 	defer func() {
 		if r := recover(); r != nil {
 			stk := string(debug.Stack())
@@ -106,6 +107,17 @@ func Main(spec *Spec) {
 	start := time.Now()
 	out := sim.NewWorkerOut(spec.ID, *worker)
 
+	finish := func() {
+		out.WallMs = time.Since(start).Milliseconds()
+		if err := sim.WriteJSON(*outPath, out); err != nil {
+			fmt.Fprintln(os.Stderr, err)
+			os.Exit(2)
+		}
+	}
+	if *mode == "replay" {
+		sim.HangAfter = 6 * time.Second // a single case takes milliseconds
+	}
+	sim.StartWatchdog(out, finish)
 	if *mode == "replay" {
 		c, err := sim.LoadCase(*casePath)
 		if err != nil {
@@ -113,6 +125,7 @@ func Main(spec *Spec) {
 			os.Exit(2)
 		}
 		c.Violation = nil
+		sim.SetCurrent(c)
 		v, _ := spec.Exec(c, out)
 		c.Violation = v
 		out.Runs = 1
@@ -148,6 +161,7 @@ func Main(spec *Spec) {
 		r := sim.NewRng(rs)
 		c := spec.Gen(r, *tier)
 		c.Property, c.Engine, c.Seed = spec.ID, "C", rs>>12
+		sim.SetCurrent(c)
 		v, nontrivial := spec.Exec(c, out)
 		out.Runs++
 		out.Steps += int64(len(c.Ops))
